@@ -80,6 +80,11 @@ func (i *importer) Import() bool {
 	return i.s.Scan()
 }
 
+// Err returns the first non-EOF error encountered while reading the input.
+func (i *importer) Err() error {
+	return i.s.Err()
+}
+
 func (i *importer) GetRow() (Row, error) {
 	if i.s.Err() != nil {
 		return nil, fmt.Errorf("%w", i.s.Err())
